@@ -236,6 +236,10 @@ def _meddle(actions):
             gc.set_debug(gc.DEBUG_UNCOLLECTABLE | gc.DEBUG_SAVEALL)
         elif a == 'warn_reset':
             warnings.resetwarnings()
+        elif a == 'warn_filter':
+            # a test (or a library it imports) installs filters of its own and leaves them behind
+            warnings.simplefilter('error', ResourceWarning)
+            warnings.filterwarnings('ignore', message='vw scripted noise')
         elif a == 'chdir':
             os.chdir('/')
         elif a == 'chdir_sub':
